@@ -34,9 +34,23 @@ import (
 //	          SHUTDOWN (TerminateAll)
 func teardownKind() kindDef {
 	return kindDef{
-		name:     "pppoe-teardown",
-		cfgs:     []string{"radius", "no-radius"},
-		prefixes: func(string) []string { return []string{"CREATED", "AUTH", "ADDR", "EST"} },
+		name: "pppoe-teardown",
+		// .../fault=X: one release step of the victim's teardown fails - ebpf: the UpdateEBPFMaps callback returns an
+		// error (NAT/QoS stay); acct-stop: the RADIUS server fails the Accounting-Stop. Every other resource must
+		// still be released and the session removed.
+		cfgs: []string{"radius", "no-radius", "radius/fault=ebpf", "radius/fault=acct-stop"},
+		prefixes: func(cfg string) []string {
+			if strings.Contains(cfg, "/fault=") {
+				return []string{"EST"}
+			}
+			return []string{"CREATED", "AUTH", "ADDR", "EST"}
+		},
+		morePrefixes: func(cfg string) []string {
+			if strings.Contains(cfg, "/fault=") {
+				return []string{"ADDR"}
+			}
+			return nil
+		},
 		// RESTART-x: the client starts over (the data path creates a second session for the same MAC, as handlePADR
 		// does, and brings it up to the same prefix), then x ends every session the client was ever given
 		paths: func(string, string) []string {
@@ -54,21 +68,23 @@ type tdSub struct {
 }
 
 type tdWorld struct {
-	e     *kenv
-	k     kase
-	sm    *pppoe.SessionManager
-	pool  *pppoe.IPPool
-	td    *pppoe.SessionTeardown
-	coa   *bngradius.CoAProcessor
-	natM  *nat.Manager
-	qosM  *qos.Manager
-	rs    *radiusScript
-	rc    *bngradius.Client
-	base  mapDump
-	a, b  *tdSub
-	vic   []*tdSub // every session the victim's MAC was ever given
-	padts int
-	viols []viol
+	e          *kenv
+	k          kase
+	sm         *pppoe.SessionManager
+	pool       *pppoe.IPPool
+	td         *pppoe.SessionTeardown
+	coa        *bngradius.CoAProcessor
+	natM       *nat.Manager
+	qosM       *qos.Manager
+	rs         *radiusScript
+	rc         *bngradius.Client
+	base       mapDump
+	a, b       *tdSub
+	vic        []*tdSub // every session the victim's MAC was ever given
+	padts      int
+	fault      string          // "", "ebpf", "acct-stop"
+	ebpfFailed map[string]bool // victim addresses whose eBPF removal was failed by injection
+	viols      []viol
 }
 
 func (w *tdWorld) add(kind, site, f string, a ...any) {
@@ -94,14 +110,23 @@ func newTDWorld(e *kenv, k kase, padtRetries int) *tdWorld {
 	w.td.SetSendPADT(func(*pppoe.Session, []pppoe.Tag) { w.padts++ })
 	w.td.SetSendLCPTermReq(func(*pppoe.Session, string) {})
 	w.td.SetUpdateEBPFMaps(func(s *pppoe.Session, remove bool) error {
+		if remove && s.ClientIP != nil && w.fault == "ebpf" && s.Username == "victim" {
+			w.ebpfFailed[s.ClientIP.String()] = true
+			return fmt.Errorf("map update refused (injected)")
+		}
 		if remove && s.ClientIP != nil {
 			w.qosM.RemoveSubscriberQoS(s.ClientIP)
 			return w.natM.DeallocateNAT(s.ClientIP)
 		}
 		return nil
 	})
-	if k.Cfg == "radius" {
+	base, fault, _ := strings.Cut(k.Cfg, "/fault=")
+	w.fault, w.ebpfFailed = fault, map[string]bool{}
+	if base == "radius" {
 		w.rs = newRadiusScript()
+		if fault == "acct-stop" {
+			w.rs.failStop["victim"] = true
+		}
 		w.rc = w.rs.client()
 		w.td.SetRADIUSClient(w.rc)
 	}
@@ -236,7 +261,7 @@ func (w *tdWorld) nrec() int {
 	if w.rs == nil {
 		return 0
 	}
-	return len(w.rs.records())
+	return w.rs.nAttempts()
 }
 
 func hasShutdown(terms []string) bool {
@@ -305,8 +330,9 @@ func (w *tdWorld) checkReleased(site string) {
 	if shutdown {
 		live = 0
 	}
+	live += len(w.ebpfFailed) // removal failed by injection: those entries legitimately stay
 	for _, a := range w.vic {
-		if a.addr == nil {
+		if a.addr == nil || w.ebpfFailed[a.addr.String()] {
 			continue
 		}
 		if x := w.natM.GetAllocation(a.addr); x != nil {
@@ -320,7 +346,15 @@ func (w *tdWorld) checkReleased(site string) {
 		w.add("qos-not-removed", site, "qos.Manager tracks %d subscribers, want %d", n, live)
 	}
 	cur := w.e.dump()
-	for _, x := range cur.extraKeys(w.base) {
+	extra := cur.extraKeys(w.base)
+	if want := 3 * len(w.ebpfFailed); len(w.ebpfFailed) > 0 && w.e.has() {
+		// subscriber_nat + qos_egress + qos_ingress per address whose removal was failed; nothing beyond that
+		if len(extra) != want {
+			w.add("cache-entry-left", site, "%d kernel map entries beyond the bystander's, %d belong to the failed eBPF removal: %v", len(extra), want, extra)
+		}
+		extra = nil
+	}
+	for _, x := range extra {
 		kind := "cache-entry-left"
 		if strings.HasPrefix(x, "subscriber_nat") {
 			kind = "nat-not-removed"
@@ -336,13 +370,8 @@ func (w *tdWorld) checkReleased(site string) {
 	}
 	if w.rs != nil {
 		for _, a := range w.vic {
-			starts, stops := w.rs.count(a.s.SessionID)
-			want := 0
-			if starts > 0 {
-				want = 1
-			}
-			if stops != want {
-				w.add("accounting-stop-count", site, "%d Accounting-Start and %d Accounting-Stop for the victim's session %s (want %d Stop): %s", starts, stops, a.s.SessionID, want, w.rs.render())
+			for _, c := range w.rs.stopOracle(a.s.SessionID) {
+				w.add("accounting-stop-count", site, "%s: %s", c, w.rs.render())
 			}
 		}
 		_, bstops := w.rs.count(w.b.s.SessionID)
